@@ -4,6 +4,7 @@ import math
 from fractions import Fraction as Fr
 
 import gen
+import vlib
 from vlib import t_vec, fq, ff, Result
 
 ID = "C12"
@@ -143,6 +144,47 @@ def generate(rng, tier):
             v.append(v[-1] + step)
         vals = [Fr(x, 3) for x in v]
         cases.append({"line": "Q mono " + t_vec(vals, fq, rng.choice(gen.LAYS_1D)), "meta": {"v": vals}})
+    # long structured vectors (seed C12-r5m2: a coarse pre-scan of every 8th element misjudges vectors whose only strict steps lie
+    # between two sampled positions): plateaus with one or two steps at every position, ramps ending / starting in a plateau, one
+    # reversal anywhere, for lengths around the multiples of 8 / 64 — in both directions, in every element type
+    def emit(v):
+        S = rng.choice(["Q", "F", "I", "J", "G"])
+        lay = rng.choice(gen.LAYS_1D)
+        if S == "Q":
+            vals = [Fr(x, 3) for x in v]
+            cases.append({"line": "Q mono " + t_vec(vals, fq, lay), "meta": {"v": vals}})
+        elif S == "F":
+            vals = [x * 0.5 for x in v]
+            cases.append({"line": "F mono " + t_vec(vals, ff, lay), "meta": {"v": vals}})
+        elif S == "G":
+            vals = [float(x) for x in v]
+            cases.append({"line": "G mono " + t_vec(vals, vlib.ff32, lay), "meta": {"v": vals}})
+        else:
+            cases.append({"line": f"{S} mono " + t_vec(list(v), gen.fi, lay), "meta": {"v": list(v)}})
+    lens = [32, 33, 39, 40, 41, 64, 65, 100, 257, 300] if tier == "quick" else [32, 33, 34, 39, 40, 41, 47, 48, 49, 64, 65, 72, 100, 128, 129, 256, 257, 300, 513, 600]
+    for n in lens:
+        steps = set(range(0, min(n - 1, 10))) | set(range(max(0, n - 11), n - 1)) | {rng.randrange(n - 1) for _ in range(6)}
+        if n <= 41 or tier != "quick":
+            steps |= set(range(n - 1))
+        for p_ in sorted(steps):
+            for sgn in (1, -1):
+                v = [0] * (p_ + 1) + [sgn] * (n - 1 - p_)                       # plateau, one step, plateau
+                emit(v)
+                if rng.random() < 0.4:
+                    p2 = rng.randrange(n - 1)
+                    w = list(v)
+                    for i in range(p2 + 1, n):                                  # a second step, same or opposite direction
+                        w[i] += rng.choice([sgn, sgn, -sgn])
+                    emit(w)
+        for _ in range(6):
+            a = rng.randint(1, n - 2)
+            sgn = rng.choice([1, -1])
+            emit([0] * a + [sgn * (i + 1) for i in range(n - a)])               # plateau then ramp
+            emit([sgn * i for i in range(a)] + [sgn * (a - 1)] * (n - a))       # ramp then plateau
+            w = [sgn * i for i in range(n)]
+            k = rng.randint(1, n - 1)
+            w[k] = w[k - 1] - sgn * rng.choice([0, 1])                          # strict ramp with one tie / reversal
+            emit(w)
     return cases
 
 
